@@ -328,3 +328,6 @@ def gen_ops(rng, tier, ctx=None):
         yield "mpf_cmp 40 1 %s [5] 40 1 %s [5]" % (hx(e), hx(e + 1))
         yield "mpf_cmp_ui 40 1 %s [5] 5" % hx(e)
         yield "mpf_integer_p 40 1 %s [5]" % hx(e)
+
+# source pins: the C the Lean model mirrors (see tools/pins.py)
+PINS = [('mpn/generic/get_d.c', None), ('extract-dbl.c', None), ('mpz/cmp.c', None), ('mpz/cmpabs.c', None), ('mpz/cmp_ui.c', None), ('mpz/cmp_si.c', None), ('mpz/cmpabs_ui.c', None), ('mpz/cmp_d.c', None), ('mpz/cmpabs_d.c', None), ('mpz/get_d.c', None), ('mpz/get_d_2exp.c', None), ('mpz/set_d.c', None), ('mpz/fits_s.h', None), ('mpz/get_si.c', None), ('mpz/get_ui.c', None), ('mpz/set_si.c', None), ('mpz/set_ui.c', None), ('mpf/cmp.c', None), ('mpf/cmp_ui.c', None), ('mpf/cmp_si.c', None), ('mpf/cmp_d.c', None), ('mpf/get_d.c', None), ('mpf/get_d_2exp.c', None), ('mpf/get_si.c', None), ('mpf/get_ui.c', None), ('mpf/fits_s.h', None), ('mpf/fits_u.h', None), ('mpf/set_d.c', None), ('mpf/int_p.c', None)]
